@@ -154,6 +154,7 @@ func main() {
 		os.Exit(2)
 	}
 	t0 := time.Now()
+	os.RemoveAll(filepath.Join(*verif, "replays", id))
 	st, err := interp.NewStage(*repo, *verif)
 	if err != nil {
 		fmt.Printf("INCONCLUSIVE property=%s reason=stage: %v\n", id, err)
@@ -286,6 +287,30 @@ func run(spec *PropSpec, st *interp.Stage, tier string, seed int, only string, w
 			exit = 1
 		} else {
 			inconclusive = append(inconclusive, fmt.Sprintf("%s: counterexample for %q did not reproduce natively (%s)", p.job.Key(), p.v.Label, dir))
+		}
+	}
+	// model vs. runtime: a few harness configurations are also run natively (real
+	// goroutines, real channels, under testing/synctest) on the tree as it is; the
+	// run must reach quiescence with every Final condition true
+	if !noReplay && exit == 0 {
+		seenH := map[string]bool{}
+		for _, j := range jobs {
+			if j.Mode != "bmc" || seenH[j.Harness] || len(seenH) >= 2 {
+				continue
+			}
+			seenH[j.Harness] = true
+			dir := filepath.Join(st.Verif, "replays", id, "witness-"+j.Harness)
+			os.MkdirAll(dir, 0o755)
+			writeCex(dir, j, &interp.Violation{Label: "native-witness"})
+			failed, out := replay(st, j, loaded[j.Group], dir)
+			if failed || !strings.Contains(out, "ok  ") {
+				if matchFinding(findings, id, j.Harness, "", j.Params) == nil {
+					inconclusive = append(inconclusive, fmt.Sprintf("%s: the native witness run of the harness does not satisfy its own conditions (model/runtime mismatch?) see %s", j.Key(), dir))
+				}
+			} else {
+				ev.tracesValid++
+				os.RemoveAll(dir)
+			}
 		}
 	}
 	ev.wall = time.Since(t0).Seconds()
